@@ -135,7 +135,7 @@ def make_valid(rng, templates, direction_in, packet_id, ctx=None):
             continue
         if direction_in and banned_inbound(tmpl.name):
             continue
-        spec = gen_msg.limit_for_zerocode(rng, tmpl, {"max_var_len": 120, "small_block": 6, "p_extra": 0.05})
+        spec = gen_msg.limit_for_zerocode(rng, tmpl, {"max_var_len": 120, "small_block": 6, "p_extra": 0.12})
         spec["packet_id"] = packet_id
         # endpoints only ack ids they saw; keep appended acks out of this property (C05 covers them)
         spec["acks"] = []
